@@ -116,6 +116,35 @@ def run_case(cs):
     if pure_n:
         cs.count("pure_n_histories")
         return
+    if rng.random() < 0.15:
+        # change the tree, seal it again in a format already used, then verify -dh: the tree differs from what the
+        # older generations recorded ("with respect to all recorded generations"), so the answer is 12
+        work2 = os.path.join(d, "G")
+        shutil.copytree(root, work2, symlinks=True)
+        with open(os.path.join(work2, "zz-later-addition.bin"), "wb") as f:
+            f.write(b"later" + rng.randbytes(3))
+        ms0 = world.manifests(work2)
+        import vf.hist as _h
+        from ..oracle import xmlread as _x
+        used = []
+        for n in ms0:
+            m0 = _x.read_manifest(os.path.join(work2, "ascmhl", n))
+            rh0 = m0["processinfo"]["roothash"]
+            if rh0:
+                used += [c[0] for c in rh0["content"]]
+        if used:
+            f_again = rng.choice(sorted(set(used)))
+            r = drive.run("create", [work2, "-h", f_again])
+            if r.exit == 0:
+                r = drive.run("verify", [work2, "-dh"])
+                cs.evaluated()
+                cs.count("changed_between_generations_judged")
+                cs.cls(shape, "changed-between-generations", f_again, r.exit)
+                if r.internal:
+                    cs.violation(classify.internal_key(r), classify.internal_sig(r, "verify-dh"), {**ctx, **r.brief()})
+                elif r.exit != 12:
+                    cs.violation("dh-older-generation-not-compared", {"kind": "dh-older-generation", "exit": r.exit, "format_repeated": True}, {**ctx, "format": f_again, "out": r.text[-500:]})
+        shutil.rmtree(work2, ignore_errors=True)
     # ------------- one mutation on a copy
     work = os.path.join(d, "M")
     shutil.copytree(root, work, symlinks=True)
